@@ -35,6 +35,7 @@ RULES = {
     "C13-T1": "all-or-nothing: on every path reporting UNKNOWN / 0 the cursor is back at its entry position (end of input only for an incomplete block)",
     "C13-T2": "extent agreement: success paths store len from (cursor - token start) after the last cursor change and return the consumed length",
     "C13-T3": "unit detector: data only after header+white space; INVALID exactly when not ended by NL, ';' or end of input",
+    "C13-T5": "sub-token order of the decimal numeric recognisers is that of 488.2 7.7.2.2: [sign] digits ['.' digits] [[ws] E [ws] [sign] digits]",
     "C13-T4": "character classes of predicate helpers and of every advance guard equal the 488.2 classes (computed over all 256 byte values)",
 }
 
@@ -426,6 +427,54 @@ def rule_t3(ck, prog, S):
     ck.analysed(f)
 
 
+def rule_t5(ck, prog):
+    from .lexmodel import base_of_member
+    spec = K.load_spec("grammar_488_2.json")
+    steps = set(spec["steps"])
+    for fname, allowed in spec["sequences"].items():
+        f = prog.fn(fname)
+        if f is None:
+            ck.anchor_lost("C13-T5", fname)
+            continue
+        ck.analysed(f)
+        st = K.site(f, "sub-token-order", 0)
+        allowed_t = {tuple(a) for a in allowed}
+        seen = set()
+        foreign = set()
+        for ps in P.summarize(f):
+            seq = []
+            for e in ps.events:
+                if e[0] == "call":
+                    name = e[1].get("callee")
+                    if name in steps:
+                        a = C.call_args(e[1])
+                        if name == "skipChr" and len(a) > 1 and C.const_of(a[1]) is not None:
+                            name = "skipChr:%s" % chr(C.const_of(a[1]) & 0xFF)
+                        seq.append(name)
+                    elif name and name.startswith(("skip", "scpiLex_")) and name not in ("scpiLex_IsEos",):
+                        foreign.add(name)
+                elif e[0] == "store":
+                    t = C.store_target(e[1])
+                    bm = base_of_member(t) if t is not None and t.k == "MemberExpr" else None
+                    if bm and bm[1] == "pos" and (e[1].get("op") in ("++", "+=")):
+                        seq.append("advance")
+            seen.add(tuple(seq))
+        if foreign:
+            ck.undecided("C13-T5", st, K.loc(f), "%s uses recognisers the grammar table does not know: %s" % (fname, sorted(foreign)))
+        elif not seen:
+            ck.anchor_lost("C13-T5", "no paths through %s" % fname)
+        elif seen - allowed_t:
+            w = sorted(seen - allowed_t)[0]
+            ck.violated("C13-T5", st, K.loc(f),
+                        "%s can consume its parts in the order %s; 488.2 7.7.2.2 allows only %s (for example white space is "
+                        "allowed between 'E' and the sign, not between the sign and the digits)" % (fname, list(w), sorted(allowed_t)))
+        elif allowed_t - seen:
+            ck.violated("C13-T5", st, K.loc(f), "%s never consumes %s: that form of the number is no longer recognised"
+                        % (fname, sorted(allowed_t - seen)[0]))
+        else:
+            ck.holds("C13-T5", st, K.loc(f), "paths consume exactly %s" % sorted(allowed_t))
+
+
 def run(ck, fb, tier):
     for cfg in fb.configs:
         ck.config = cfg
@@ -438,6 +487,7 @@ def run(ck, fb, tier):
         rule_t1_t2(ck, prog, S, model)
         rule_t4(ck, prog, S, model)
         rule_t3(ck, prog, S)
+        rule_t5(ck, prog)
     ck.trust("spec/char_classes.json (488.2 section 7 classes and the leniencies of src/scpi.g)",
              "<ctype.h> classifiers by their C-locale definition")
     if tier == "thorough":
